@@ -21,7 +21,7 @@ import lib
 import views
 
 PID = "C15"
-PROPS = ["Aldy.Props.C15"]
+PROPS = ["Aldy.Props.C15", "Aldy.Props.C15Table"]
 TRUSTED_EXTRA = ["GeneView serialiser"]
 ASSUMPTIONS = ["evidence tables avoid exact float boundaries of the threshold filter"]
 
